@@ -3,9 +3,9 @@ NEXT TreeNext
 CONSTANTS
   Fixes <- EnvFixes
   AtomSet = {"a"}
-  BinOps = {"||", "&&", "==", "+", "/"}
-  UnOps = {"!", "-"}
-  Ctxs = {}
+  BinOps = {"*", "::"}
+  UnOps = {"-"}
+  Ctxs = {"callee", "field", "lam", "ifc", "block"}
   Depth = 3
   StrLen = 6
 INVARIANT EmitTree
